@@ -143,6 +143,18 @@ fn peer_timeout(d: &Draw, tmo_s: u64) -> Ns {
     tmo_s * SEC / 100 * f
 }
 
+/// A second client that downloads a small file with default options while something else is going on.
+pub fn add_bystander(d: &Draw, w: &Arc<World>, srv: &ServerCfg, dir: &std::path::Path) -> ((usize, Ns), XferSpec) {
+    let side = Arc::new(content(300 + d.range("bystander.len", 900) as usize, 55));
+    let path = dir.join("side.bin");
+    std::fs::write(&path, &*side).expect("write side file");
+    let mut xc = XferCfg::new(srv.addr(), "side.bin");
+    xc.resend_request = false;
+    let (p, c) = w.add_peer(Box::new(Reader::new(xc)), srv.v6, 0);
+    let at = 10 * MS + d.range("bystander.start_us", 4000) as Ns * 1000;
+    ((p, at), XferSpec { client: c, peer: p, kind: Kind::Download, content: side, path, conformant: true, dally: true, timeout_ratio: 1 })
+}
+
 /// Enumerated strata for C04 / C07 / C08: small configurations x every position, walked by the run
 /// number (every fourth run), so that a batch covers the whole product deterministically.
 ///   C04: one drop or one duplicate on the n-th datagram of the data phase
@@ -251,7 +263,7 @@ pub fn xfer(prop: &'static str, tier: Tier, w: &Arc<World>) -> Scn {
     let sandbox = Sandbox::new();
     w.lock().sb_root = sandbox.root.to_string_lossy().into_owned();
     let dir = sandbox.dir("srv");
-    let kind = match prop {
+    let mut kind = match prop {
         "C01" => Kind::Download,
         "C02" => Kind::Upload,
         _ => {
@@ -272,8 +284,26 @@ pub fn xfer(prop: &'static str, tier: Tier, w: &Arc<World>) -> Scn {
     let big_w = prop == "C08" || prop == "C01";
     let max_blocks: u64 = if tier == Tier::Thorough { 96 } else { 40 };
     // length is drawn after the options because its classes are relative to them
-    let oc0 = if prop == "C01" { draw_options_odd(&d, big_w) } else { draw_options(&d, big_w, None) };
-    let len = draw_len(&d, oc0.b, oc0.w, max_blocks, 1 << 20);
+    let mut oc0 = if prop == "C01" { draw_options_odd(&d, big_w) } else { draw_options(&d, big_w, None) };
+    let mut len = draw_len(&d, oc0.b, oc0.w, max_blocks, 1 << 20);
+    if (prop == "C01" || prop == "C02") && d.chance("swarm.big_file", 1, 120) {
+        // files beyond 1 MiB with windows beyond 1 MiB: internal buffer boundaries must not show
+        let (b, wz) = d.pick("swarm.big.shape", &[(60000usize, 18u64), (1000, 1100), (65464, 17), (1428, 800), (8192, 200)]);
+        oc0.opts = vec![("blksize".into(), b.to_string()), ("windowsize".into(), wz.to_string())];
+        oc0.b = b;
+        oc0.w = wz;
+        len = d.pick("swarm.big.len", &[(1usize << 20) + 1000, 1_300_000, (2 << 20) + 5, (1 << 20) - 1]);
+    }
+    let mut full_window = false;
+    if prop == "C08" && d.chance("swarm.full_window_65535", 1, if tier == Tier::Thorough { 800 } else { 3000 }) {
+        // the boundary the statement names: windowsize 65535 with a completely full window outstanding
+        kind = Kind::Download;
+        oc0.opts = vec![("blksize".into(), "8".into()), ("windowsize".into(), "65535".into())];
+        oc0.b = 8;
+        oc0.w = 65535;
+        len = 65535 * 8 + d.pick("swarm.full_window.extra", &[3usize, 0, 8, 19]);
+        full_window = true;
+    }
     let mut oc = oc0;
     for o in oc.opts.iter_mut() {
         if o.0 == "tsize" {
@@ -392,7 +422,7 @@ pub fn xfer(prop: &'static str, tier: Tier, w: &Arc<World>) -> Scn {
                 }
                 1 => {
                     let code = d.range("swarm.c07.errcode", 8) as u16;
-                    xc.script.push((step, Adv::Error(code, d.chance("swarm.c07.errmsg", 1, 2))));
+                    xc.script.push((step, if d.chance("swarm.c07.errtext", 1, 3) { Adv::ErrorText(code, d.range("swarm.c07.errtext.kind", 6) as u8) } else { Adv::Error(code, d.chance("swarm.c07.errmsg", 1, 2)) }));
                     conformant = false;
                 }
                 2 => {
@@ -416,17 +446,24 @@ pub fn xfer(prop: &'static str, tier: Tier, w: &Arc<World>) -> Scn {
                     let n = 1 + d.range("swarm.adv.count", 3);
                     for _ in 0..n {
                         let step = 1 + d.range("swarm.adv.step", nblocks.min(40) + 2);
-                        let a = match d.range("swarm.adv.kind", 4) {
+                        let a = match d.range("swarm.adv.kind", 6) {
                             0 => Adv::AckDup,
                             1 => Adv::AckStale(1 + d.range("swarm.adv.back", 4)),
                             2 => Adv::AckStale(0),
+                            3 => Adv::StrayOack,
+                            4 => Adv::Garbage,
                             _ => Adv::AckDup,
                         };
                         xc.script.push((step, a));
                     }
                 }
             }
-            if d.chance("swarm.faults", 1, 2) {
+            if full_window {
+                conformant = false;
+                xc.script.clear();
+                xc.script.push((2 + d.range("swarm.full_window.step", 2), Adv::AckDup));
+            }
+            if !full_window && d.chance("swarm.faults", 1, 2) {
                 fc.fate_w = [24, 2, 2, 2, 1, 3];
                 fc.budget = 1 + d.range("swarm.fault.budget", budget_max);
                 fc.late_w = if d.chance("swarm.fault.lateness", 1, 3) { [2, 1, 1] } else { [1, 0, 0] };
@@ -470,9 +507,19 @@ pub fn xfer(prop: &'static str, tier: Tier, w: &Arc<World>) -> Scn {
         Kind::Download => w.add_peer(Box::new(Reader::new(xc)), srv.v6, 0),
         Kind::Upload => w.add_peer(Box::new(Writer::new(xc, data.to_vec())), srv.v6, 0),
     };
-    let spec = XferSpec { client, peer, kind, content: data.clone(), path, conformant, dally, timeout_ratio };
-    w.add_monitor(Box::new(XferMon::new(prop, rules, vec![spec], dupn)));
+    let mut specs = vec![XferSpec { client, peer, kind, content: data.clone(), path, conformant, dally, timeout_ratio }];
+    let mut bystander = None;
+    if (prop == "C01" || prop == "C02") && d.chance("swarm.bystander", 1, 4) {
+        // another client fetches a small file with default options while the main transfer runs
+        let (bp, spec) = add_bystander(&d, w, &srv, &dir);
+        specs.push(spec);
+        bystander = Some(bp);
+    }
+    w.add_monitor(Box::new(XferMon::new(prop, rules, specs, dupn)));
     boot_server(w, &srv).expect("server config");
     w.start_peer_at(peer, 10 * MS);
+    if let Some((bp, at)) = bystander {
+        w.start_peer_at(bp, at);
+    }
     Scn { sandbox, desc, step_cap: 400_000, time_cap: 2_000_000 * SEC, faultfree }
 }
